@@ -284,11 +284,11 @@ Theorem C38_reachable_in_sync : forall ds, insync (apply_all (map cmd_of_delta d
 Proof. intros. apply replicated_deltas_insync. exact insync0. Qed.
 
 (* Conversely a change of ANY kind that is not replicated is reverted by the next sync (for a status change: the
-   recovery direction, replicated "unhealthy" vs local "ready"). *)
+   recovery direction, replicated "unhealthy" vs local "ready"; for the scaling policy: once a policy has been replicated). *)
 Definition ex_conn : connector := {| cn_name := 7%N; cn_type := 8%N; cn_params := []; cn_desc := None |}.
 Definition ex_base : list delta :=
   [DAddWorker 5%N 9%N 9%N {| cpu_cores := 4; pipelines_running := 0; max_pipelines := 10 |}; DSetStatus 5%N SUnhealthy;
-   DSetGroup 6%N (JNum 1); DSetConnector 7%N ex_conn].
+   DSetGroup 6%N (JNum 1); DSetConnector 7%N ex_conn; DSetPolicy (Some (JNum 0))].
 Definition ex_rs : cstate := apply_all (map cmd_of_delta ex_base) cstate0.
 Definition ex_view : view := fold_left apply_delta ex_base view0.
 Definition ex_unreplicated (k : dkind) : delta :=
@@ -322,7 +322,7 @@ Qed.
    translator found in its handler / health-loop branch (Gen_Replication.gen_replicates). Known finding classes = the
    operations that change something they do not replicate. *)
 Definition Known_C38_not_replicated (o : op_kind) : Prop :=
-  In o [OpDeploy; OpTeardown; OpManualMigrate; OpApiRebalance; OpDrain; OpFailover; OpAutoRebalance; OpRecovery; OpSetScalingPolicy].
+  In o [OpDeploy; OpTeardown; OpManualMigrate; OpApiRebalance; OpDrain; OpFailover; OpAutoRebalance; OpRecovery].
 Theorem C38_operations_replicate_their_changes : forall o,
     ~ Known_C38_not_replicated o -> covered (gen_replicates o) o = true.
 Proof. intros [] H; try reflexivity; exfalso; apply H; cbn; tauto. Qed.
